@@ -20,6 +20,9 @@ type Spec struct {
 	Optimize bool         `json:"optimize,omitempty"`
 	Opt      *h.OptParams `json:"opt,omitempty"`
 	Commits  int          `json:"commits"` // how many times the case is committed from pristine copies (map-order sampling)
+	// FirstPass: before the full application, the same patch is applied with a whitelist (the new files whose
+	// index has the bit set, cyclic) onto the same bowl object; the commit must still give exactly the new build
+	FirstPass []bool `json:"first_pass,omitempty"`
 }
 
 func check(s Spec) h.Result {
@@ -105,7 +108,19 @@ func check(s Spec) h.Result {
 		if err != nil {
 			return h.Result{Skip: "cannot snapshot"}
 		}
-		err = h.ApplyInPlace(patch, work, stage, &h.ApplyOpts{PreCommit: func() string {
+		var first map[int64]bool
+		if len(s.FirstPass) > 0 {
+			first = map[int64]bool{}
+			for k := 0; k < 64; k++ {
+				if s.FirstPass[k%len(s.FirstPass)] {
+					first[int64(k)] = true
+				}
+			}
+			if i == 0 {
+				cl = append(cl, "bowl:two-passes-on-one-bowl")
+			}
+		}
+		err = h.ApplyInPlace(patch, work, stage, &h.ApplyOpts{FirstPass: first, PreCommit: func() string {
 			after, err := h.ReadDisk(work)
 			if err != nil {
 				return "cannot snapshot before commit: " + err.Error()
@@ -192,6 +207,9 @@ var prop = h.Prop[Spec]{
 		if rapid.IntRange(0, 2).Draw(t, "optimize") == 0 {
 			s.Optimize = true
 			s.Opt = &h.OptParams{Partitions: rapid.IntRange(0, 2).Draw(t, "parts"), Comp: s.Comp}
+		}
+		if rapid.IntRange(0, 4).Draw(t, "two-passes") == 0 {
+			s.FirstPass = rapid.SliceOfN(rapid.Bool(), 1, 4).Draw(t, "first-pass")
 		}
 		return s
 	},
